@@ -17,7 +17,9 @@ import (
 	configapi "github.com/onosproject/onos-api/go/onos/config/v2"
 	"github.com/openconfig/gnmi/proto/gnmi"
 	"google.golang.org/grpc"
+	"google.golang.org/grpc/codes"
 	"google.golang.org/grpc/metadata"
+	"google.golang.org/grpc/status"
 )
 
 // SNode is a schema node.
@@ -158,6 +160,15 @@ type Plugin struct {
 	mu      sync.Mutex
 	Docs    []*PluginDoc
 	inc     func() context.Context
+	// Poison is the token this model rejects (default PoisonValue); sink, when set, receives this plugin's documents
+	// (the second model logs into the first one's list, so that the oracles see one sequence)
+	Poison string
+	sink   *Plugin
+	// Calls counts validations (at execution, over both models: counted on the sink); ErrAt marks ordinals whose call
+	// fails with a transport error (Unavailable) instead of a verdict; ErrTx collects the transactions hit
+	Calls int
+	ErrAt map[int]bool
+	ErrTx map[uint64]bool
 }
 
 // NewPlugin creates a fake plugin client.
@@ -170,7 +181,11 @@ func (p *Plugin) GetModelInfo(ctx context.Context, in *adminapi.ModelInfoRequest
 }
 
 func (p *Plugin) verdict(doc []byte) (bool, string) {
-	if bytes.Contains(doc, []byte(PoisonValue)) {
+	tok := p.Poison
+	if tok == "" {
+		tok = PoisonValue
+	}
+	if bytes.Contains(doc, []byte(tok)) {
 		return false, "poison value present"
 	}
 	return true, ""
@@ -216,11 +231,33 @@ func (s *valStream) Send(c *adminapi.ValidateConfigRequestChunk) error {
 
 func (s *valStream) CloseAndRecv() (*adminapi.ValidateConfigResponse, error) {
 	var resp *adminapi.ValidateConfigResponse
+	var callErr error
 	ok := s.p.k.Park("val/"+s.p.Name, func() {
 		valid, msg := s.p.verdict(s.buf)
-		s.p.mu.Lock()
-		s.p.Docs = append(s.p.Docs, &PluginDoc{Step: s.p.k.StepN, Task: s.p.k.Active, Bytes: s.buf, Chunks: s.chunks, Valid: valid})
-		s.p.mu.Unlock()
+		dst := s.p
+		if dst.sink != nil {
+			dst = dst.sink
+		}
+		dst.Calls++
+		if dst.ErrAt[dst.Calls] {
+			// the plugin cannot be reached / its answer is lost: no verdict at all
+			delete(dst.ErrAt, dst.Calls)
+			s.p.k.Stat("fault/plugin-unavailable")
+			if _, idx, ok := taskProposal(s.p.k.Active); ok {
+				if dst.ErrTx == nil {
+					dst.ErrTx = map[uint64]bool{}
+				}
+				dst.ErrTx[idx] = true
+			}
+			dst.mu.Lock()
+			dst.Docs = append(dst.Docs, &PluginDoc{Step: s.p.k.StepN, Task: s.p.k.Active, Bytes: s.buf, Chunks: s.chunks, Valid: false})
+			dst.mu.Unlock()
+			callErr = status.Error(codes.Unavailable, "injected: model plugin unavailable")
+			return
+		}
+		dst.mu.Lock()
+		dst.Docs = append(dst.Docs, &PluginDoc{Step: s.p.k.StepN, Task: s.p.k.Active, Bytes: s.buf, Chunks: s.chunks, Valid: valid})
+		dst.mu.Unlock()
 		resp = &adminapi.ValidateConfigResponse{Valid: valid, Message: msg}
 	}, s.ctx, s.inc)
 	if !ok {
@@ -228,6 +265,9 @@ func (s *valStream) CloseAndRecv() (*adminapi.ValidateConfigResponse, error) {
 			return nil, s.ctx.Err()
 		}
 		return nil, context.Canceled
+	}
+	if callErr != nil {
+		return nil, callErr
 	}
 	return resp, nil
 }
